@@ -5,11 +5,11 @@ From RTP Require Import Base.Bits Base.Res Base.ListX Base.Tactics Model.RtpPack
 Import ListNotations.
 Open Scope Z_scope.
 
-Lemma onebyte_hdr_decode id len : 1 <= id <= 14 -> 1 <= len <= 16 ->
+Lemma onebyte_hdr_decode id len : 0 <= id <= 14 -> 1 <= len <= 16 -> (id = 0 -> 2 <= len) ->
   let b := id * 16 + (len - 1) in
   b <> 0 /\ Z.shiftr b 4 = id /\ u8 (Z.land b 15 + 1) = len.
 Proof.
-  intros Hid Hlen b. subst b. unfold u8.
+  intros Hid Hlen H0 b. subst b. unfold u8.
   rewrite shiftr_div by lia. change 15 with (Z.ones 4). rewrite land_ones_mod by lia.
   change (2 ^ 4) with 16. lia.
 Qed.
@@ -48,13 +48,14 @@ Proof.
       replace (n + (1 + zlen (enc_items false items))) with ((n + 1) + zlen (enc_items false items)) by lia.
       rewrite IH by (auto; lia). cbn [elems item_offsets]. repeat (f_equal; try lia).
     + (* element *)
-      destruct Hit as [Hid Hlen].
-      destruct (onebyte_hdr_decode id (zlen v) Hid Hlen) as (Hnz & Hsh & Hl).
+      destruct Hit as (Hid & Hlen & H0).
+      destruct (onebyte_hdr_decode id (zlen v) Hid Hlen H0) as (Hnz & Hsh & Hl).
       cbn [enc_item1 app] in *. rewrite zlen_cons in *. cbn [length] in Hf. cbn [parse_exts].
       pose proof (zlen_nonneg v) as Hv.
       case_if; [lia|].
       case_if; [lia|].
       rewrite Hsh, Hl.
+      case_if; [lia|].
       case_if; [lia|].
       rewrite zlen_app. case_if; [pose proof (zlen_nonneg (enc_items false items ++ rest)); lia|].
       rewrite take_app_exact, drop_app_exact.
@@ -88,6 +89,7 @@ Proof.
     + destruct Hit as [Hid Hlen].
       cbn [enc_item2 app] in *. rewrite !zlen_cons in *. cbn [length] in Hf. cbn [parse_exts].
       pose proof (zlen_nonneg v) as Hv.
+      case_if; [lia|].
       case_if; [lia|].
       case_if; [lia|].
       rewrite zlen_app. case_if; [pose proof (zlen_nonneg (enc_items true items ++ rest)); lia|].
